@@ -1,6 +1,7 @@
 """C11 - returned paths are clean (E2)."""
 from vlib import runner
 import build
+from props.C15 import WRAP      # also registers how hist_explore is linked, for replays
 
 
 def run(ctx):
@@ -10,6 +11,9 @@ def run(ctx):
         # pair carriers enumerate every split point as well: one letter shorter
         ctx.run_space(b, "paths", ["carrier=%d" % c, "maxlen=%d" % (ml - 1 if c in (5, 6, 8) else ml)], cpu_limit=60)
     ctx.run_space(b, "longpaths", cpu_limit=120)
+    # "every header the library returns": also the ones it returns when an allocation inside the header read has failed
+    hb = build.ensure_explorer("hist_explore", "asan", extra_ld=WRAP)
+    ctx.run_space(hb, "faults", ["full=%d" % (2 if ctx.thorough else 1), "leaks=0"], cpu_limit=120)
     ctx.assumptions += ["ref/ref_header.c normalise/path filter, bound to the 183 recorded header dumps of the corpus by ./check selftest"]
     return ctx.finish(
         rule="every byte string up to the length over {'.','/','\\\\',0xFF,NUL,'a'} (link carriers add '|') placed in 12 carriers (the last three supply the name or the path twice, a longer harmless one first): level-0/1 in-header name, 0x02 path alone, 0x01 name alone, directory path, "
